@@ -1,4 +1,1 @@
 package main
-
-func cmdCheck(args []string) int  { return 2 }
-func cmdReplay(args []string) int { return 2 }
